@@ -672,6 +672,21 @@ class SymRandom:
             flat[i] = self._fresh_unit(ctx)
         return out
 
+    def randn(self, *shape):
+        """Standard normal draws: arbitrary reals (only the support matters here)."""
+        self.calls.append(("randn", shape, {}))
+        h = self.handlers.get("randn")
+        if h is not None:
+            return h(*shape)
+        ctx = _eng.CURRENT
+        if not shape:
+            return ctx.real(ctx.fresh("g"), -6, 6)
+        out = _np.empty(shape, dtype=object)
+        flat = out.reshape(-1)
+        for i in range(flat.size):
+            flat[i] = ctx.real(ctx.fresh("g"), -6, 6)
+        return out
+
     def random(self, size=None):
         if size is None:
             return self.rand()
